@@ -5,7 +5,7 @@ from symx.api import *
 PROPERTY = 'C08'
 LEVEL = 'model_checking'
 INSTRUMENT = dict(prefixes=('mesonbuild.',), exact=('mesonbuild', 'configparser'))
-FILES = ['mesonbuild/options.py', 'mesonbuild/cmdline.py']
+FILES = ['mesonbuild/options.py', 'mesonbuild/cmdline.py', 'mesonbuild/coredata.py', 'mesonbuild/msetup.py']
 ENCODED = ['cmdline.write_cmd_line_file / update_cmd_line_file / read_cmd_line_file + configparser (stdlib, instrumented)', 'OptionStore.set_from_configure_command (-D sets, -U drops the augment / re-yields)', 'OptionStore.update_project_options (new / removed / re-ranged / re-typed option)',
            'options.choices_are_different', 'OptionStore.set_user_option/set_option/remove/add_project_option', 'OptionStore.get_value_for', 'UserOption.validate_value/set_value',
            'copy.deepcopy of the store standing in for one save/load cycle']
@@ -16,7 +16,7 @@ EXPLANATION = ('The OptionStore is treated as a transition system: a history of 
                'the persisted store only on success, which is how mconf/msetup save coredata.')
 ASSUMPTIONS = ['copy.deepcopy stands in for the pickle round-trip of coredata.dat (pickle is a C module)', 'one top-level project option, one system option, one subproject',
                'integer values -9..9, ranges within -5..5', 'a yielding boolean option pair (parent / subproject) with symbolic defaults']
-OUT = ('STATED PROMINENTLY: coredata.dat pickling, the --wipe run itself (only the cmd_line.txt round trip it relies on is decided), rollback of coredata.dat.prev, mconf.run_impl file handling. '
+OUT = ('STATED PROMINENTLY: coredata.dat pickling, the --wipe run itself (only the cmd_line.txt round trip it relies on is decided), mconf.run_impl file handling. '
        'This check decides the state-transition half of C08 and the recorded-command-line round trip (3 of the 5 anchored mechanisms); kill points of the persistence protocol are C09.')
 MANIFEST = dict(
     text='Bounded model checking of the in-memory option state machine: all command histories up to the bound with symbolic values against a last-value/default reference model. '
@@ -33,6 +33,8 @@ def setup():
     from harness.common import quiet_mlog
     o.mlog = quiet_mlog()
     O, ME = o, MesonException
+    import harness.c09 as c09        # the file-level obligation (rollback after a failed run) lives with the file-system model of C09
+    c09.setup()
 
 
 CH = ['c0', 'c1', 'c2', 'c3']
@@ -259,4 +261,7 @@ def obligations(tier):
     for n in (0, 1, 2) if q else (0, 1, 2, 3):
         out.append(Obligation('cmdline-file[%d]' % n, ob_cmdline_file(n), dict(value_length=n, alphabet='a space = # newline [ % : ; tab', keys='opt, sub:o2, build.o3', then='nothing | update | delete'),
                               labels=('done',), max_paths=3000000, classify=classify_cmdline))
+    import harness.c09 as c09
+    out.append(Obligation('failed-reconfigure', c09.ob_failed_reconfigure(), dict(earlier_successful_saves='0..3', files='coredata.dat / .prev on the modelled file system of C09', rollback='except-branch of MesonApp._generate, mirrored'),
+                          labels=('first-setup', 'rolled-back')))
     return out
